@@ -45,10 +45,12 @@ type FuncContract struct {
 	Logical    bool    // deterministic function of its arguments (no heap): an uninterpreted function in VCs
 	PureIf     *Clause // the function writes nothing visible to callers when this holds at entry
 	NoSafety   bool // do not emit safety obligations (function only used as a callee contract)
+	AtCalls    []*CallSpec // "at_call F : expr": expr holds in the state in which F is called (args as arg0..)
 	Calls      []*CallSpec
 	OnlyAt     []string // "p.f": of field f (of p's struct type) only the object p is written; all other objects keep f
 	FreshRefs  bool     // use the axiom that unknown heap arrays hold only pre-existing (or escaped) references
 	Preserves  []string // fields whose value in every pre-existing object is the same after the call (return or panic)
+	Unfold     []string // opaque specs whose definitions this function's proof needs from callee contracts
 	DynPreserves []string // fields that code reached through dynamic calls is assumed to leave unchanged
 	AssumeLoads string // spec predicate assumed of every interface value loaded from a struct field / slice element
 	Stable     []string // slices whose backing arrays are assumed not to be written during the call
@@ -76,6 +78,8 @@ type CallSpec struct {
 // the verifier then never havocs the field.
 type StableField struct {
 	Pkg, Type, Field string
+	TypePrefix       string   // all fields of all struct types with this name prefix
+	Files            []string // source files whose stores are exempt
 	Writers          []string
 	Props            []string
 	File             string
@@ -90,6 +94,7 @@ type SpecFunc struct {
 	Ret    string // Go type text
 	Body   string // contract expression (macro) or SMT text (raw)
 	Raw    bool
+	Opaque bool // in assumed callee contracts the application stays uninterpreted (no defining equation)
 	Pkg    string
 	File   string
 	Line   int
@@ -203,8 +208,11 @@ func (cs *ContractSet) parseFile(path, pkg string) error {
 			cur = &FuncContract{Key: "slot " + key, Pkg: pkg, Invariants: map[int][]*Clause{}, Decreases: map[int]*Clause{}, File: path, Line: line, Trusted: true}
 			cs.Slots[key] = cur
 			lastText = nil
-		case "spec", "smt":
+		case "spec", "smt", "ospec":
 			sf, err := parseSpec(rest, kw == "smt")
+			if err == nil && kw == "ospec" {
+				sf.Opaque = true
+			}
 			if err != nil {
 				return fmt.Errorf("%s:%d: %v", path, line, err)
 			}
@@ -215,6 +223,24 @@ func (cs *ContractSet) parseFile(path, pkg string) error {
 		case "smtraw":
 			cs.SMTRaw = append(cs.SMTRaw, rest)
 			lastText = &cs.SMTRaw[len(cs.SMTRaw)-1]
+			cur = nil
+		case "stabletypes":
+			// stabletypes[P] prefix=node files=cmpl_parse.go : every field of every struct type
+			// whose name starts with the prefix is stable; stores in the listed files are exempt
+			st := &StableField{Pkg: pkg, Props: props, File: path, Line: line}
+			for _, f := range strings.Fields(rest) {
+				switch {
+				case strings.HasPrefix(f, "prefix="):
+					st.TypePrefix = strings.TrimPrefix(f, "prefix=")
+				case strings.HasPrefix(f, "files="):
+					st.Files = strings.Split(strings.TrimPrefix(f, "files="), ",")
+				}
+			}
+			if st.TypePrefix == "" {
+				return fmt.Errorf("%s:%d: stabletypes needs prefix=", path, line)
+			}
+			cs.StableFields = append(cs.StableFields, st)
+			lastText = nil
 			cur = nil
 		case "stablefield":
 			sf := &StableField{Pkg: pkg, Props: props, File: path, Line: line}
@@ -319,6 +345,18 @@ func (cs *ContractSet) parseFile(path, pkg string) error {
 				cur.PureIf = cl
 			case "nosafety":
 				cur.NoSafety = true
+			case "at_call":
+				i := strings.Index(rest, ":")
+				if i < 0 {
+					return fmt.Errorf("%s:%d: at_call needs F : expr", path, line)
+				}
+				callee := strings.TrimSpace(rest[:i])
+				if callee != "select" && (strings.HasPrefix(callee, "(") || !strings.Contains(callee, ".")) {
+					callee = pkg + "." + callee
+				}
+				cl.Text = strings.TrimSpace(rest[i+1:])
+				cur.AtCalls = append(cur.AtCalls, &CallSpec{Callee: callee, When: "", Clause: cl})
+				lastText = &cl.Text
 			case "calls", "nocall":
 				cs, err := parseCallSpec(rest, pkg)
 				if err != nil {
@@ -343,6 +381,9 @@ func (cs *ContractSet) parseFile(path, pkg string) error {
 						cur.Preserves = append(cur.Preserves, x)
 					}
 				}
+				lastText = nil
+			case "unfold":
+				cur.Unfold = append(cur.Unfold, strings.Fields(strings.ReplaceAll(rest, ",", " "))...)
 				lastText = nil
 			case "dyn_preserves":
 				for _, x := range strings.Split(rest, ",") {
